@@ -66,7 +66,7 @@ pub fn h_memlimit<T: DecodeWithMemTracking + Spec, const L: usize>(c: Option<u32
 	}
 	if let Ok(v) = &r0 {
 		assert!(u >= v.spec_heap(), "tracked usage is below the bytes of decoded data the value holds on the heap");
-		if v.spec_heap() == 0 && !holds_heap_by_type::<T>() { assert!(u == 0, "tracked usage is positive for a value holding no heap data"); }
+		if !v.spec_holds_heap() { assert!(u == 0, "tracked usage is positive for a value holding no heap data"); }
 	}
 	kani::cover!(r0.is_ok() && r1.is_ok(), "info: both ok");
 	kani::cover!(true, "reach: end of harness");
